@@ -222,7 +222,7 @@ theorem c09_f1_stuck_forever {s t : St} {c : Nat} {rest : List Nat} (h : Stuck s
 and its `boot` -/
 def f1Schedule : List Act :=
   [.runEnter, .runBoot (.ok [(0, 0)]), .runToRunning, .childRun 0 0,
-   .reloadCall, .rlEnter, .rlCallback (.ok [(1, 0)]), .rlDecide, .rlStopBegin, .childExit 0 0 .nil, .childStopRet 0, .rlStopEnd, .rlSetConfig,
+   .reloadCall, .rlEnter, .rlCallback (.ok [(1, 0)]), .rlAfterCb, .rlDecide, .rlStopBegin, .childExit 0 0 .nil, .childStopRet 0, .rlStopEnd, .rlSetConfig,
    .stopCall, .runSelStop, .runToStopping, .runStopBegin]
 
 /-- **C09-F1 is a behaviour of the model**: the stuck configuration is reachable with bundled-style children -/
@@ -390,7 +390,7 @@ configuration callback (`runBoot`, `rlCallback`: how long that takes, and how la
 environment's business) -/
 def isLib : Act → Bool
   | .runEnter | .runToRunning | .runSelCtx | .runSelStop | .runSelErr | .runToStopping | .runStopBegin | .runStopEnd | .runFinish
-  | .rlEnter | .rlDecide | .rlStopBegin | .rlStopEnd | .rlSetConfig | .rlBoot | .rlChildReload | .rlFinish
+  | .rlEnter | .rlAfterCb | .rlDecide | .rlStopBegin | .rlStopEnd | .rlSetConfig | .rlBoot | .rlChildReload | .rlFinish
   | .childStopRet _ => true
   | _ => false
 
@@ -405,6 +405,7 @@ def runPart (s : St) : Nat :=
 def rlPart (s : St) : Nat :=
   match s.rl with
   | .idle => 0 | .entered => 1
+  | .cbReturned (.ok cfg) => 7 + cfg.length + cfgLen s | .cbReturned _ => 1
   | .gotConfig cfg => 6 + cfg.length + cfgLen s | .restart cfg => 5 + cfg.length + cfgLen s | .skip cfg => 3 + cfg.length
   | .stopping cfg p => 4 + cfg.length + p.length | .stoppedOld cfg => 3 + cfg.length | .configSet => 2 | .children => 2
   | .finishing => 1
@@ -552,12 +553,22 @@ open GoSup.CompSeq (CbRes Out names Fsm)
 /-- **A callback error or a nil configuration leaves the children untouched and moves the composite to Error** (C11, last
 clause): the reload ends at once; configuration, generations and children are exactly what they were. -/
 theorem c11_callback_failure_untouched (s : St) (res : CbRes) (hrl : s.rl = .entered) (hres : ∀ c, res ≠ .ok c) :
-    ∃ s', step s (.rlCallback res) = some s' ∧ s'.fsm = .error ∧ s'.rl = .idle ∧ s'.cfg = s.cfg ∧ s'.gens = s.gens
+    ∃ s1 s', step s (.rlCallback res) = some s1 ∧ s1 = { s with rl := .cbReturned res }
+      ∧ step s1 .rlAfterCb = some s' ∧ s'.fsm = .error ∧ s'.rl = .idle ∧ s'.cfg = s.cfg ∧ s'.gens = s.gens
       ∧ s'.live = s.live ∧ s'.reloads = s.reloads + 1 := by
   cases res with
   | ok c => exact absurd rfl (hres c)
-  | err => exact ⟨{ s with fsm := .error, rl := .idle, reloads := s.reloads + 1 }, by simp [step, hrl], rfl, rfl, rfl, rfl, rfl, rfl⟩
-  | nil => exact ⟨{ s with fsm := .error, rl := .idle, reloads := s.reloads + 1 }, by simp [step, hrl], rfl, rfl, rfl, rfl, rfl, rfl⟩
+  | err => exact ⟨_, { s with fsm := .error, rl := .idle, reloads := s.reloads + 1 }, by simp [step, hrl], rfl, by simp [step], rfl, rfl, rfl, rfl, rfl, rfl⟩
+  | nil => exact ⟨_, { s with fsm := .error, rl := .idle, reloads := s.reloads + 1 }, by simp [step, hrl], rfl, by simp [step], rfl, rfl, rfl, rfl, rfl, rfl⟩
+
+/-- the same at whatever moment `Reload` gets to act on the failed callback (other threads may have run since the callback
+returned): only the FSM state, the reload's own position and the count of finished reloads change -/
+theorem c11_callback_failure_untouched_later (s : St) (res : CbRes) (hrl : s.rl = .cbReturned res) (hres : ∀ c, res ≠ .ok c) :
+    step s .rlAfterCb = some { s with fsm := .error, rl := .idle, reloads := s.reloads + 1 } := by
+  cases res with
+  | ok c => exact absurd rfl (hres c)
+  | err => simp [step, hrl]
+  | nil => simp [step, hrl]
 
 /-- **In place when the membership is unchanged** (C11): the reload stores the new configuration and touches no
 generation — no child is stopped or started; every child then gets its one reload call (`rlChildReload`). -/
